@@ -54,9 +54,11 @@ class G:
 
     def source(self, depth):
         r = self.rnd
-        if depth > 0 and r.random() < 0.2:
+        bias = getattr(self, "bias", None) == "derived-sources"  # every tenth program: mostly un-named derived sources
+        if depth > 0 and r.random() < (0.75 if bias else 0.2):
             q = self.select(depth - 1, plain_cols=True)
-            return {"k": "sub", "q": q, "alias": self.alias("s"), "cols": [c["as"] for c in q["select"]]}
+            # auto: the builder is handed the subquery without a name and names it itself (sq<n>); the reference keeps its own name
+            return {"k": "sub", "q": q, "alias": self.alias("s"), "cols": [c["as"] for c in q["select"]], "auto": r.random() < (0.9 if bias else 0.4)}
         t = r.choice(TABLES)
         used = getattr(self, "_used", set())
         alias = self.alias("q") if (r.random() < 0.5 or t in used) else None
@@ -179,7 +181,8 @@ class G:
         srcs = [self.source(depth)]
         joins = []
         extra_from = []
-        for _ in range(r.choice([0, 0, 1, 1, 2]) if not single else r.choice([0, 1])):
+        more = [1, 1, 2, 2] if getattr(self, "bias", None) == "derived-sources" and not single else [0, 0, 1, 1, 2]
+        for _ in range(r.choice(more) if not single else r.choice([0, 1])):
             s = self.source(max(0, depth - 1))
             how = r.choice(["inner", "left", "cross", "from"])
             if how == "from":
@@ -210,7 +213,12 @@ class G:
                     e = self.col(srcs)
                 else:
                     e = self.expr(srcs, 2 if depth > 0 else 1, kind="text" if r.random() < 0.15 else "int")
-                sel.append({"e": e, "as": self.alias("c")})
+                name = self.alias("c")
+                if plain_cols and e["k"] == "col" and e["name"] not in [x["as"] for x in sel] and r.random() < 0.7:
+                    # a derived source usually hands its columns on under their own names: sibling sources then share column
+                    # names, and only the qualifier tells them apart
+                    name = e["name"]
+                sel.append({"e": e, "as": name})
             if not single and not plain_cols and r.random() < 0.15:
                 part = [self.col(srcs)] if r.random() < 0.6 else []
                 wn = r.choice(["ROW_NUMBER", "RANK", "SUM", "COUNT"])
@@ -451,11 +459,14 @@ def ref_stmt(p):
 
 # ---------------------------------------------------------------------------------------------- pypika writer
 class PB:
-    def __init__(self, parent=None):
+    def __init__(self, parent=None, entry=None):
         self.r = registry()
         self.Q = self.r["SQLLiteQuery"]
         self.tables = {}
         self.parent = parent
+        # entry "shortcut": tables come from the dialect's factories (SQLLiteQuery.Table / .Tables((name, alias))) and statements
+        # start from the table's own shortcuts (t.select() / t.update()), as the documentation shows
+        self.entry = entry if entry is not None else (parent.entry if parent is not None else None)
 
     def table(self, name):
         pb = self
@@ -469,10 +480,14 @@ class PB:
         key = s["alias"] or s["t"]
         if key in self.tables:
             return self.tables[key]
-        if s["k"] == "table":
+        if s["k"] == "table" and self.entry == "shortcut":
+            o = self.Q.Tables((s["t"], s["alias"]))[0] if s["alias"] else self.Q.Table(s["t"])
+        elif s["k"] == "table":
             o = self.r["Table"](s["t"], alias=s["alias"]) if s["alias"] else self.r["Table"](s["t"])
         else:
-            o = self.select(s["q"]).as_(s["alias"])
+            o = self.select(s["q"])
+            if not s.get("auto"):
+                o = o.as_(s["alias"])
         self.tables[key] = o
         return o
 
@@ -542,7 +557,10 @@ class PB:
     def select(self, q, base=None, **kw):
         r = self.r
         srcs = [self.src_obj(s) for s in q["from"]]
-        b = base if base is not None else self.Q.from_(srcs[0], **kw)
+        if base is None and self.entry == "shortcut" and isinstance(srcs[0], self.r["Table"]):
+            b = srcs[0].select()
+        else:
+            b = base if base is not None else self.Q.from_(srcs[0], **kw)
         if base is not None:
             b = b.from_(srcs[0])
         for s in srcs[1:]:
@@ -585,15 +603,15 @@ class PB:
         if k == "select":
             return self.select(p)
         if k == "setop":
-            a = PB().select(p["a"])  # (the SQLite builder's defaults, as a user gets them)
-            b = PB().select(p["b"])
+            a = PB(entry=self.entry).select(p["a"])  # (the SQLite builder's defaults, as a user gets them)
+            b = PB(entry=self.entry).select(p["b"])
             so = {"UNION": a.union, "UNION ALL": a.union_all, "INTERSECT": a.intersect, "EXCEPT": a.except_of}[p["op"]](b)
             if p["order"]:
                 so = so.orderby(a._selects[0])
             if p["limit"] is not None:
                 so = so.limit(p["limit"])
             return so
-        t = r["Table"](p["t"])
+        t = self.Q.Table(p["t"]) if self.entry == "shortcut" else r["Table"](p["t"])
         self.tables[p["t"]] = t
         if k == "insert":
             b = self.Q.into(t).columns(*p["cols"])
@@ -613,7 +631,7 @@ class PB:
                     b = b.do_update(c)
             return b
         if k == "update":
-            b = self.Q.update(t)
+            b = t.update() if self.entry == "shortcut" else self.Q.update(t)
             if p["from"]:
                 b = b.from_(self.src_obj(p["from"]))
             for c, e in p["set"]:
@@ -694,14 +712,21 @@ def norm_row(row):
 def run_case(case, mon):
     rnd = random.Random("C03case:" + case["s"])
     g = G(rnd)
-    p = case.get("p") or g.statement(rnd.randint(1, 3))
+    if case.get("bias"):
+        g.bias = case["bias"]
+        mon.count("programs_biased_to_derived_sources")
+    p = case.get("p") or g.statement(rnd.randint(2, 3) if case.get("bias") else rnd.randint(1, 3))
     try:
         ref = ref_stmt(p)
     except Exception as e:
         mon.inconc("reference writer failed: %r" % e)
         return
     try:
-        sql = PB().stmt(p).get_sql(registry()["SQLLiteQuery"].SQL_CONTEXT)
+        if rnd.random() < 0.2:
+            mon.count("programs_started_from_table_shortcuts")
+            sql = str(PB(entry="shortcut").stmt(p))  # rendered the way users do: no context
+        else:
+            sql = PB().stmt(p).get_sql(registry()["SQLLiteQuery"].SQL_CONTEXT)
     except Exception as e:
         mon.violation("library-raises:%s:%s" % (type(e).__name__, p["k"]), "building/rendering a program of the stated subset raised %r; reference: %s" % (e, ref[:300]),
                       {"program": p})
@@ -799,7 +824,10 @@ def run_case(case, mon):
 def cases(tier, seed, shard, nshards):
     n = (32000 if tier == "quick" else 800000) // nshards
     for i in range(n):
-        yield {"s": "%d:%d:%d" % (seed, shard, i), "ndb": 6 if tier == "quick" else 24}
+        c = {"s": "%d:%d:%d" % (seed, shard, i), "ndb": 6 if tier == "quick" else 24}
+        if i % 10 == 9:
+            c["bias"] = "derived-sources"
+        yield c
 
 
 def FLOORS(tier):
